@@ -57,7 +57,7 @@ func (c c09Case) String() string {
 }
 
 func c09Cases(tier string) []c09Case {
-	maxPre, maxCont := 1, 2
+	maxPre, maxCont := 2, 2
 	if tier == "thorough" {
 		maxPre, maxCont = 2, 3
 	}
@@ -397,7 +397,7 @@ func init() {
 	mc.Register(&mc.Property{
 		ID:     "C09",
 		Level:  "fault_enumeration",
-		Rule:   "exhaustive enumeration: every history of 0-1 (thorough 0-2) writes x an unknown-outcome fault on the commit of each of 6 write kinds x both variants (batch applied / not applied) x every continuation of up to 2 (thorough 3) steps from {6 writes, compaction, retry interval elapses} x 4 fates of the first repair commit (ok, plain error, unknown+applied, unknown+not applied), run on the real backend with the real sequencer and retry loop on a virtual clock; a case is distinct by its parameters and non-trivial when the fault actually hit a commit",
+		Rule:   "exhaustive enumeration: every history of 0-2 writes x an unknown-outcome fault on the commit of each of 6 write kinds x both variants (batch applied / not applied) x every continuation of up to 2 (thorough 3) steps from {6 writes, compaction, retry interval elapses} x 4 fates of the first repair commit (ok, plain error, unknown+applied, unknown+not applied), run on the real backend with the real sequencer and retry loop on a virtual clock; a case is distinct by its parameters and non-trivial when the fault actually hit a commit",
 		Assume: []string{"in-memory engine; the unknown outcome is injected at the storage.KvStorage seam", "retry / check interval 5 s / 1 s on the virtual clock", "single client, default schedule (thorough explores the retry loop against a writer under C19's harness)"},
 		Exec:   c09Exec,
 		Drive: func(c *mc.Ctx) {
